@@ -232,6 +232,14 @@ func runC11(c *Ctx) {
 		if ps := c.paths("views", fi); ps != nil {
 			recv := paramOf(fi, 0)
 			ok := len(ps) == 1 && clearOK
+			if len(ps) > 1 {
+				// written out as two delete-everything loops
+				f, r := c11ClearingLoops(ps, recv, fF, fR)
+				if len(f) > 0 && len(r) > 0 && len(findLoops(ps)) == 2 {
+					R.Held("views", fi.Name, "both", c.pos(fi), "clears forward and reverse (two delete-everything loops)")
+					goto clearDone
+				}
+			}
 			if ok {
 				seen := map[string]bool{}
 				for i := range ps[0].Events {
@@ -247,6 +255,7 @@ func runC11(c *Ctx) {
 				ok = ok && seen["F"] && seen["R"]
 			}
 			R.Decide(ok, "views", fi.Name, "both", c.pos(fi), "clears forward and reverse", "Clear does not clear both maps")
+		clearDone:
 		}
 	}
 
@@ -265,6 +274,21 @@ func runC11(c *Ctx) {
 		recv := paramOf(fi, 0)
 		delOK, delWhy := true, ""
 		nDel := 0
+		// clearing loops: for k := range m { delete(m, k) } over the forward and over the reverse map
+		clearKey := map[string]bool{}
+		cleared := map[string]bool{}
+		{
+			f, r := c11ClearingLoops(ps, recv, fF, fR)
+			for k := range f {
+				clearKey[k] = true
+				cleared["F"] = true
+			}
+			for k := range r {
+				clearKey[k] = true
+				cleared["R"] = true
+			}
+		}
+		clearsBoth := cleared["F"] && cleared["R"]
 		for _, p := range ps {
 			type ins struct{ k, v *Term }
 			var fIns, rIns []ins
@@ -352,6 +376,10 @@ func runC11(c *Ctx) {
 				nDel++
 				other := map[string]string{"F": "R", "R": "F"}[d.kind]
 				paired := false
+				// a delete-everything loop over one map, with the same loop for the other map in the same function
+				if clearsBoth && clearKey[d.key.Key()] {
+					continue
+				}
 				// case 1: d.key = otherMap[P].0 (hit known) and P is deleted from / overwritten in otherMap on this path
 				if mk, P, lk := asLookupValue(d.key); mk == other && P != nil {
 					if !hitKnown(lk) {
@@ -495,8 +523,50 @@ func runC11(c *Ctx) {
 	if fi := c.fn("clone-detached", "maps.(*Bimap).Clone"); fi != nil {
 		if ps := c.paths("clone-detached", fi); ps != nil {
 			recv := paramOf(fi, 0)
-			ok, why := cloneOK, "maps.Clone is not known to return a fresh map"
+			ok, why := true, ""
+			// a copy written out as a loop: a fresh map filled with every (key, value) of the receiver's map
+			copiedByLoop := func(m *Term, want *types.Var) bool {
+				if m.Op != "mkmap" {
+					return false
+				}
+				for _, li := range findLoops(ps) {
+					it := c14IterOf(li)
+					if it == nil || it.kind != "map" || !isFieldLoad(it.over, want, recv) {
+						continue
+					}
+					good := len(li.Back) > 0
+					for _, q := range li.Back {
+						n := 0
+						for i := q.LoopAt[li.Hdr]; i < len(q.Events); i++ {
+							e := &q.Events[i]
+							if e.Kind == "mapupdate" && e.Addr.Key() == m.Key() {
+								if it.isKey(e.Key) && it.isElem(e.Val) {
+									n++
+								} else {
+									n = -99
+								}
+							}
+						}
+						conds := 0
+						for _, cd := range q.Conds {
+							if cd.NEv >= q.LoopAt[li.Hdr] {
+								conds++
+							}
+						}
+						if n != 1 || conds != 1 {
+							good = false
+						}
+					}
+					if good {
+						return true
+					}
+				}
+				return false
+			}
 			for _, p := range ps {
+				if p.End != EndReturn {
+					continue
+				}
 				if len(p.Rets) != 1 || p.Rets[0].Op != "struct" {
 					ok, why = false, "a path returns something other than a freshly built Bimap ("+p.CondString()+"): the receiver's maps are shared"
 					continue
@@ -508,6 +578,12 @@ func runC11(c *Ctx) {
 					want := fF
 					if sameField(stt.Field(k), fR) {
 						want = fR
+					}
+					if copiedByLoop(v, want) {
+						continue
+					}
+					if v.Op == "call" && v.Sym == "maps.Clone" && !cloneOK {
+						ok, why = false, "maps.Clone is not known to return a fresh map"
 					}
 					if !(v.Op == "call" && v.Sym == "maps.Clone" && isFieldLoad(v.Args[0], want, recv)) {
 						ok, why = false, "field "+stt.Field(k).Name()+" of the clone is "+v.String()+", not a fresh copy of the receiver's map"
@@ -610,4 +686,52 @@ func c11LazyInit(c *Ctx, fF, fR *types.Var) {
 			o.Breaks = "assignment to entry in nil map (panic) or all pairs dropped by an unconditional re-creation"
 		}
 	}
+}
+
+// c11ClearingLoops finds loops of the form `for k := range m { delete(m, k) }` over the forward / reverse map of recv
+// and returns the keys (term keys) they delete.
+func c11ClearingLoops(ps []*Path, recv *Term, fF, fR *types.Var) (fwd, rev map[string]bool) {
+	fwd, rev = map[string]bool{}, map[string]bool{}
+	for _, li := range findLoops(ps) {
+		it := c14IterOf(li)
+		if it == nil || it.kind != "map" || len(li.Back) == 0 {
+			continue
+		}
+		var into map[string]bool
+		if isFieldLoad(it.over, fF, recv) {
+			into = fwd
+		} else if isFieldLoad(it.over, fR, recv) {
+			into = rev
+		}
+		if into == nil {
+			continue
+		}
+		all := true
+		var keyT *Term
+		for _, q := range li.Back {
+			n := 0
+			for i := q.LoopAt[li.Hdr]; i < len(q.Events); i++ {
+				e := &q.Events[i]
+				if e.Kind == "call" && e.Name == "builtin.delete" && e.Args[0].Key() == it.over.Key() && it.isKey(e.Args[1]) {
+					n++
+					keyT = e.Args[1]
+				} else if e.Kind == "call" || e.Kind == "mapupdate" || e.Kind == "store" {
+					n = -99
+				}
+			}
+			conds := 0
+			for _, cd := range q.Conds {
+				if cd.NEv >= q.LoopAt[li.Hdr] {
+					conds++
+				}
+			}
+			if n != 1 || conds != 1 {
+				all = false
+			}
+		}
+		if all && keyT != nil {
+			into[keyT.Key()] = true
+		}
+	}
+	return
 }
